@@ -32,8 +32,8 @@ theorem stepOK_of {bb : Option Name} {P : List Obj} {w1 : World} {a : Oid} {op :
     (hask : askedClause P (recOf w1 a op vs cs res) = true) :
     StepOK bb P w1 (recOf w1 a op vs cs res) := by
   have hc : (recOf w1 a op vs cs res).crash = false := crashes_false hinv.uid M
-  have := snapshot_clauses (P := P) (S := w1.objs) (r := recOf w1 a op vs cs res) rfl hc hinv.uid H M
-  exact ⟨hinv, rfl, hc, this.1, this.2.1, this.2.2, hcre, hno, hex, hask, rfl⟩
+  have := snapshot_clauses (P := P) (S := w1.objs) (r := recOf w1 a op vs cs res) rfl hc hinv.uid hinv.wf H M
+  exact ⟨hinv, rfl, hc, this.1, this.2.1, this.2.2, hcre, hno, hex, hask, rfl, rfl, rfl⟩
 
 /-- a step that changes no registered object and creates nothing -/
 theorem stepOK_same {bb : Option Name} {w : World} (hw : Inv w) (w1 : World) (hobjs : w1.objs = w.objs)
@@ -260,30 +260,23 @@ theorem reload_ok {bb : Option Name} {w : World} (hw : Inv w) {a : Oid} {A : Obj
   | some T =>
     have hTo := (getO_some hT).2
     have hTm := (getO_some hT).1
-    by_cases hm : t = masterOid
-    · simp only [hm, if_true]
-      apply stepOK_same hw w rfl
-      · exact noEuid_of_all (by simp [recOf]) rfl
-      · simp [exportClause, recOf]
-      · simp [askedClause, recOf]
-    · simp only [hm, if_false]
-      apply stepOK_of
-      · exact Inv_setO hw { T with euid := none } (hw.uid T hTm) _ rfl
-      · intro e hmem
-        rcases frame_setO hw.wf hmem with h | h
-        · refine Or.inr (Or.inl ?_)
-          simp [isMade, recOf, h]
-        · exact Or.inl h
-      · intro c hc m hmade
-        simp at hc
-        subst hc
-        simp at hmade
-        subst hmade
-        simp [getO_setO]
-      · simp [creationClause, recOf, madeOk, hTo, hT]
-      · exact noEuid_of_all (by simp [recOf]) rfl
-      · simp [exportClause, recOf]
-      · simp [askedClause, recOf]
+    apply stepOK_of
+    · exact Inv_setO hw { T with euid := none } (hw.uid T hTm) _ rfl
+    · intro e hmem
+      rcases frame_setO hw.wf hmem with h | h
+      · refine Or.inr (Or.inl ?_)
+        simp [isMade, recOf, h]
+      · exact Or.inl h
+    · intro c hc m hmade
+      simp at hc
+      subst hc
+      simp at hmade
+      subst hmade
+      simp [getO_setO]
+    · simp [creationClause, recOf, madeOk, hTo, hT]
+    · exact noEuid_of_all (by simp [recOf]) rfl
+    · simp [exportClause, recOf]
+    · simp [askedClause, recOf]
 
 /-! ### creation -/
 
@@ -347,8 +340,8 @@ theorem create_ok {cfg : Cfg} {pol : Policy} {i : Nat} {w : World} {A : Obj} {oi
   cases bp <;> simp [h]
 
 theorem load_ok {w : World} (hw : Inv w) {a : Oid} {A : Obj} (hA : getO w.objs a = some A)
-    (cfg : Cfg) (pol : Policy) (i : Nat) (p : Path) :
-    StepOK cfg.bb w.objs (doLoad cfg pol i w A p).1 (recOfR a (.load p) (doLoad cfg pol i w A p)) := by
+    (cfg : Cfg) (pol : Policy) (i : Nat) (p : Path) (p' : Path) :
+    StepOK cfg.bb w.objs (doLoad cfg pol i w A p).1 (recOfR a (.load p') (doLoad cfg pol i w A p)) := by
   have hAo := (getO_some hA).2
   subst hAo
   unfold doLoad recOfR
@@ -441,10 +434,11 @@ theorem load_ok {w : World} (hw : Inv w) {a : Oid} {A : Obj} (hA : getO w.objs a
 
 theorem exists_reserved {p : Path} (h : p.exists = true) : p.oid ∈ reservedOids := by
   obtain ⟨d, f⟩ := p
-  simp only [Path.exists, dirs, files, Bool.and_eq_true, List.contains_iff_mem, List.mem_cons,
-    List.not_mem_nil, or_false] at h
-  obtain ⟨hd, hf⟩ := h
-  rcases hd with rfl | rfl | rfl | rfl | rfl <;> rcases hf with rfl | rfl | rfl <;> decide
+  simp only [Path.exists, dirs, files, Bool.or_eq_true, Bool.and_eq_true, List.contains_iff_mem, List.mem_cons,
+    List.not_mem_nil, or_false, decide_eq_true_eq] at h
+  rcases h with ⟨hd, hf⟩ | h
+  · rcases hd with rfl | rfl | rfl | rfl | rfl <;> rcases hf with rfl | rfl | rfl <;> decide
+  · rw [h]; decide
 
 /-- generic assembly for load/clone steps past the euid test -/
 theorem stepOK_created {cfg : Cfg} {w : World} {A : Obj} (_hw : Inv w) (hA : getO w.objs A.oid = some A)
